@@ -13,7 +13,8 @@ CHECKS = {
              'list-of-results regex semantics. The theorem is re-checked on every run against the rule table, '
              'character classes, case tables and keyword dictionaries regenerated from /repo; the hand-written '
              'regex semantics and scan loop are tied to the code by differential runs (lex and per-rule rmatch '
-             'stages) of the extracted model against CPython/sqlparse.',
+             'stages) of the extracted model against CPython/sqlparse, and by AST pins of Lexer.clear/add_keywords/is_keyword, the scan '
+             'loop of get_tokens and the class-level attributes (tools/regen/gen_lexpins.py, fail-closed: Gen/LexPins.v).',
         note='Trusted: Coq kernel; translators (re._parser ASTs, exhaustive atom evaluation); extraction '
              '(ExtrOcamlBasic only) + driver; the regex structure semantics Regex/Re.v is tested against CPython '
              're, not proved equal to it. Print Assumptions: closed under the global context.',
@@ -180,16 +181,20 @@ CHECKS.update({
         text='Exact accessor models (tied by the acc correspondence: every accessor on every node) and, for ALL name/qualifier/alias texts '
              'and ALL whitespace runs, C12_reference: on the Identifier shapes produced by grouping (3 quotings x optional qualifier x '
              '{none, AS alias, implicit alias}) the five accessors return exactly the written parts with quotes removed; closed examples '
-             'show cur_parse yields these shapes. That every syntactic context yields the canonical shape is decided by the direct oracle '
-             'over 40 contexts x quotings x alias forms x whitespace (one listed finding: INSERT target alias before a column list).',
+             'show cur_parse yields these shapes, and the finite pipeline family C12_pipeline_fin (bound in the statement: 11 contexts x 3 '
+             'qualifiers x 4 quotings x 5 alias forms = 660 texts through lexer, splitter and all 25 passes, vm_compute) ties the shapes '
+             'to what the passes build. That every other syntactic context yields the canonical shape is decided by the direct oracle '
+             'over 40+ contexts x quotings x alias forms x whitespace (two listed findings).',
         note='Partial: pipeline-level shape by exploration (oracle) + closed examples; accessor level unbounded.',
         design='7/C12', technique='Coq proof (accessor theorems on shapes) + acc correspondence + context oracle'),
     'C18': dict(
         text='Exact model of Statement.get_type (acc correspondence) with unbounded theorems get_type_keyword (any whitespace/comment '
              'prefix, any continuation), get_type_cte, get_type_unknown_*, get_type_total; ASCII-case invariance of lexing (C_lex_case). '
              'The full claim is REFUTED (keyword directly followed by `(`, `.`, `::`; CREATE OR REPLACE with irregular inner whitespace: '
-             'two listed findings). That the leading keyword stays the first significant child through the grouping passes is decided '
-             'by the direct oracle over all DML/DDL words x casings x prefixes x continuations.',
+             'two listed findings). That the leading keyword stays the first significant child through the grouping passes: finite pipeline '
+             'family C18_pipeline_fin (bound in the statement: every DML/DDL word of the regenerated dictionaries x 2 casings x 6 prefixes x '
+             '3 separators x 18 continuations through the whole model pipeline, vm_compute) and the direct oracle over all DML/DDL words x '
+             'casings x prefixes x continuations.',
         note='Partial (two listed findings; barrier lemma for the passes not proved).',
         design='7/C18', technique='Coq proof (get_type theorems) + acc correspondence + oracle'),
 })
@@ -202,7 +207,7 @@ CHECKS.update({
              'corollaries for ANY length (where_extent, identifier_list_one_group: n items become ONE IdentifierList with exactly the '
              'written items; comparison_chain; typed literals); exact accessor models with get_identifiers_spec, get_parameters_spec/'
              '_partial (+ refutation: a sole non-identifier argument is dropped), get_cases_wellformed, comparison_operands; closed '
-             'finite pipeline families (C13Fin: 162 WHERE texts x followers x nesting, lists, calls, typed literals, comparisons). '
+             'finite pipeline families (C13Fin: 198 WHERE texts = conditions x followers x nesting, lists, calls, typed literals, comparisons). '
              'Direct oracle on generated instances with known expected structure; 18 listed deviation classes (mechanism signatures).',
         note='Partial: pipeline composition beyond the finite families by oracle + correspondence; 18 known findings.',
         design='7/C13', technique='Coq proof (pass = specification; accessor theorems; finite families) + correspondence + oracle'),
